@@ -23,12 +23,26 @@
 (* deterministically; a reload snapshot (or the replay to a late joiner)   *)
 (* carries no order among the keys it adds, so every order is admitted     *)
 (* (set of outcomes, BUILDING.md rule 2).                                  *)
+(*                                                                         *)
+(* An element of Keys is one *life* of an etcd key: IdOf[k] is the key's   *)
+(* name in etcd (the publisher's id), ValOf[k] the value it carries during *)
+(* that life.  Two lives may have the same id and different values: a      *)
+(* publisher that expires and registers again under its fixed id with a    *)
+(* new address.  At most one life per id is present at a time, and a life  *)
+(* begins only when no other life of its id is present - an in-place       *)
+(* overwrite of a live key with another value is outside the statement     *)
+(* ("each key carries one value during its life").  When the delete and    *)
+(* the new put both happen while the watch is down, the reload snapshot    *)
+(* shows a key the cluster already knew, with another value; what Values() *)
+(* must show afterwards is the same as always: the values of the lives     *)
+(* present.                                                                *)
 (***************************************************************************)
 EXTENDS Integers, Sequences, FiniteSets, TLC, SequencesExt
 
 CONSTANTS Keys,      \* etcd keys under the watched prefix (strings)
           Vals,      \* values (strings)
           ValOf,     \* [Keys -> Vals]
+          IdOf,      \* [Keys -> STRING]: the name of the key in etcd (lives of one key share it)
           Subs,      \* subscribers (strings)
           Excl,      \* subset of Subs created with Exclusive()
           MaxMissed, \* bound on changes missed during one outage
@@ -60,6 +74,10 @@ AllowedIn(s, vw, ow) == IF s \in Excl THEN {ValsOfOwner(o) : o \in ow[s]} ELSE {
 Allowed(s) == AllowedIn(s, view, owns)
 
 (* ---------------------------------------------------------------- pure step functions *)
+
+\* no other life of k's etcd key is among ks
+IdFree(ks, k) == \A k2 \in ks : IdOf[k2] = IdOf[k] => k2 = k
+OneLifePerId(ks) == \A k \in ks : IdFree(ks, k)
 
 ViewApply(vw, e) == IF e.op = "put" THEN vw \cup {e.k} ELSE vw \ {e.k}
 
@@ -103,9 +121,10 @@ TypeOK ==
   /\ attached \subseteq Subs
   /\ backlog \in Seq([op : {"put", "del"}, k : Keys]) /\ Len(backlog) <= MaxMissed
   /\ \A s \in Subs : owns[s] \subseteq Owners
+  /\ OneLifePerId(etcd) /\ OneLifePerId(view)
 
 Init ==
-  /\ etcd \in SUBSET Keys
+  /\ etcd \in {ks \in SUBSET Keys : OneLifePerId(ks)}
   /\ up = TRUE
   /\ backlog = <<>>
   /\ fresh = {}
@@ -131,7 +150,7 @@ Change(e) ==
             /\ UNCHANGED <<up, view, owns>>
             /\ out' = [op |-> e.op, k |-> e.k] @@ Predict(attached, view, owns)
 
-Put(k)    == Change(Ev("put", k))                    \* also a re-publication of a present key
+Put(k)    == IdFree(etcd, k) /\ Change(Ev("put", k))  \* also a re-publication of a present key (same life)
 Delete(k) == k \in etcd /\ Change(Ev("del", k))
 
 Disconnect ==
@@ -155,14 +174,18 @@ Resume ==
 \* is registered; the watch (from revision + 1) delivers them in order.
 Reload(mid) ==
   /\ attached # {}
-  /\ \A i \in 1..Len(mid) : mid[i].op = "del" => mid[i].k \in ViewApplySeq(etcd, SubSeq(mid, 1, i - 1))
+  /\ \A i \in 1..Len(mid) : LET before == ViewApplySeq(etcd, SubSeq(mid, 1, i - 1))
+                            IN IF mid[i].op = "del" THEN mid[i].k \in before ELSE IdFree(before, mid[i].k)
   /\ up' = TRUE
   /\ etcd' = ViewApplySeq(etcd, mid)
   /\ view' = etcd'
   /\ owns' = OwnsMap(LAMBDA o : {OwnApplySeq(f, mid) : f \in OwnReload(o, view, etcd, fresh)})
   /\ backlog' = <<>> /\ fresh' = {}
   /\ UNCHANGED attached
-  /\ out' = [op |-> "reload", mid |-> mid] @@ Predict(attached, view', owns')
+  /\ out' = [op |-> "reload", mid |-> mid,
+              \* the snapshot shows a key that was known before, with another value (a new life)
+              reval |-> (\E k \in etcd \ view, k2 \in view \ etcd : IdOf[k] = IdOf[k2])]
+             @@ Predict(attached, view', owns')
 
 \* NewSubscriber while the watch is up: the first one creates the cluster (initial load), a
 \* later one is replayed the current set and must show it immediately
